@@ -61,7 +61,7 @@ def run(ctx):
                 ctx.violation("mode-dependent result under %s: %s" % (mode, d), rep, klass=klass)
         return
     totals = {"batches": 0, "all_e": 0, "permuted": 0, "nontrivial_runs": 0, "timeouts": [], "shrunk": {}, "path": "n/a"}
-    nrand = ctx.n(1, 8)
+    nrand = ctx.n(1, 4)
 
     def modes():
         return ["default", "unbuf", "unbuf_rc"] + ["random:%d" % ctx.rng.randrange(1, 2 ** 31) for _ in range(nrand)]
@@ -80,7 +80,7 @@ def run(ctx):
     base.process(ctx, items, labels, "corpus", totals, 0, judge=cs.judge_modes, word="mode")
     ctx.log("corpus done: %d files" % len(items))
 
-    nprog = ctx.n(24, 600)
+    nprog = ctx.n(24, 200)
     items, labels = [], []
     for i in range(nprog):
         lines, feats = cs.gen_program(ctx.rng, malformed=(i % 5 == 4))
